@@ -103,7 +103,7 @@ impl Property for C14 {
         100
     }
     fn classes(&self) -> Vec<ClassSpec> {
-        vec![cls("x25519", 2500, 300_000), cls("x448", 1500, 150_000)]
+        vec![cls("x25519", 30_000, 600_000), cls("x448", 10_000, 200_000)]
     }
     fn strategy(&self, class: usize) -> BoxedStrategy<Case> {
         let big = class == 1;
